@@ -1,0 +1,40 @@
+//go:build verif
+
+package eval
+
+import "reflect"
+
+// Read-only export of the flat program for the verification harness
+// (build tag "verif"). Nothing here is compiled into normal builds.
+
+type VerifNode struct {
+	Flag     uint8
+	ChildCnt int8
+	ScIdx    int16
+	OsTop    int16
+	VarKey   VariableKey
+	Value    Value
+	OpPtr    uintptr
+}
+
+// VerifProgram copies the compiled program out; it writes nothing.
+func VerifProgram(e *Expr) (nodes []VerifNode, parentIdx []int16, maxStackSize int16) {
+	nodes = make([]VerifNode, len(e.nodes))
+	for i, n := range e.nodes {
+		var p uintptr
+		if n.operator != nil {
+			p = reflect.ValueOf(n.operator).Pointer()
+		}
+		nodes[i] = VerifNode{
+			Flag:     n.flag,
+			ChildCnt: n.childCnt,
+			ScIdx:    n.scIdx,
+			OsTop:    n.osTop,
+			VarKey:   n.varKey,
+			Value:    n.value,
+			OpPtr:    p,
+		}
+	}
+	parentIdx = append([]int16(nil), e.parentIdx...)
+	return nodes, parentIdx, e.maxStackSize
+}
